@@ -52,6 +52,7 @@ def Guard.effect (m : Mode) : Guard → Effect
   | .emptyChecked => .none
   | .noConstCaller => .none
   | .listConstNoAlloc => .none
+  | .readOnlyUse => .none
 
 open XalanModel.Generated.C07_Share (allow) in
 def classify (e : Entry) : Option Guard :=
